@@ -63,8 +63,11 @@ Record case := {
                                         (* fragment name, fragment text, the graph read_fragments built for it
                                            (nodes with element / chiral / ez_isomer_class / bonding, edges with order) *)
   c_str : option pystr;                 (* the whole CGsmiles string, for hydrogen-free inputs only (EzStrings.resolve_string) *)
-  c_side : list (Z * Z * bool)          (* marked (ligand id, anchor id): the ligand is on the upper side of the double bond's
+  c_side : list (Z * Z * bool);         (* marked (ligand id, anchor id): the ligand is on the upper side of the double bond's
                                            axis (the generator's ground truth; cis = same side) *)
+  c_simtok : list (pystr * list (Z * pystr))
+                                        (* fragment name -> the per-atom token store the GENERATOR simulated for its text
+                                           (text position, token); its `unambiguous` filter is computed from this *)
 }.
 
 (** ---- the models FROM STRINGS (EzStrings) against the implementation *)
@@ -148,12 +151,32 @@ Definition predict_ok (c : case) : bool :=
       else true
   | _, _ => true
   end.
-Definition corr_ok (c : case) : bool := corr_ok_step c && forallb frag_ok (c_frags c) && string_ok c && predict_ok c.
+(** the generator's simulation of the token store agrees with the MODEL of strip_bonding_descriptors + template on the
+    same text (which frag_ok ties to the implementation): the tagged positions and their tokens are the same *)
+Definition simtok_ok (c : case) : bool :=
+  forallb (fun nt =>
+     match find (fun f => str_eqb (fst (fst f)) (fst nt)) (c_frags c) with
+     | Some (name, text, _) =>
+         match marked_template fo_check name text with
+         | Ok g =>
+             let got := get_node_attributes g (S "ez_isomer_class") in
+             Nat.eqb (length got) (length (snd nt))
+             && forallb (fun kt => match ez_get (fst kt) got with
+                                   | Some v => pyval_eqb v (VStr (snd kt))
+                                   | None => false
+                                   end) (snd nt)
+         | Err _ => false
+         end
+     | None => true
+     end) (c_simtok c).
+Definition corr_ok (c : case) : bool :=
+  corr_ok_step c && forallb frag_ok (c_frags c) && string_ok c && predict_ok c && simtok_ok c.
 (** which part disagrees (diagnosis only): 1 annotation step, 2 a fragment template, 3 the model from the string,
-    4 the class predicted from the ground truth *)
+    4 the class predicted from the ground truth, 5 the generator's token-store simulation *)
 Definition corr_diag (c : case) : nat :=
   if negb (corr_ok_step c) then 1%nat else if negb (forallb frag_ok (c_frags c)) then 2%nat
-  else if negb (string_ok c) then 3%nat else if negb (predict_ok c) then 4%nat else 0%nat.
+  else if negb (string_ok c) then 3%nat else if negb (predict_ok c) then 4%nat
+  else if negb (simtok_ok c) then 5%nat else 0%nat.
 
 (** ------------------------------------------------------------------ the property's clauses *)
 Fixpoint zlookup (k : Z) (m : list (Z * Z)) : option Z :=
